@@ -11,7 +11,7 @@
    on the complete blocks).  WriteToSTL issues one Write for the GSI block and one per TTI block, each checked
    (C18_write_stl_fault / _complete). *)
 From Coq Require Import List NArith Bool Arith.
-From Astisub Require Import Kit.Base Kit.Scan Kit.IOW Model.Srt Model.Vtt Proofs.SrtIOProofs Proofs.VttIOProofs.
+From Astisub Require Import Kit.Base Kit.Scan Kit.IOW Model.Srt Model.Vtt Proofs.ScanProofs Proofs.SrtIOProofs Proofs.VttIOProofs.
 From Astisub Require Import Model.Ssa Proofs.SsaIOProofs.
 From Astisub Require Import Model.Stl Model.StlIO Proofs.StlIOProofs.
 From Astisub Require Import Model.Ttml Proofs.TtmlIO.
@@ -24,10 +24,34 @@ Proof. exact read_vtt_fault. Qed.
 Theorem C18_read_ssa_fault : forall ls, exists k, read_ssa_lines ls true = Err k.
 Proof. exact read_ssa_fault. Qed.
 
+(* over both ways a stream can end: a reader that returns cues did so on a stream that ended at end-of-file, and what it
+   returns is the one-shot result on the whole document - success is never a silent truncation *)
+Theorem C18_success_means_complete : forall data e counts,
+  (forall l, read_srt_lines (fst (scan_stream data e counts)) (snd (scan_stream data e counts)) = Ok l ->
+             e = SEof /\ read_srt data = Ok l) /\
+  (forall d, read_vtt_lines (fst (scan_stream data e counts)) (snd (scan_stream data e counts)) = Ok d ->
+             e = SEof /\ read_vtt data = Ok d) /\
+  (forall d, read_ssa_lines (fst (scan_stream data e counts)) (snd (scan_stream data e counts)) = Ok d ->
+             e = SEof /\ read_ssa data = Ok d).
+Proof.
+  intros data e counts. destruct e as [|k]; cbn [scan_stream scan_fail fst snd].
+  - rewrite (scan_lines data counts). unfold read_srt, read_vtt, read_ssa.
+    split; [|split]; intros x Hx; (split; [reflexivity | exact Hx]).
+  - split; [|split]; intros x Hx; exfalso.
+    + destruct (read_srt_fault (scan (firstn k data) counts)) as (q & E); congruence.
+    + destruct (read_vtt_fault (scan (firstn k data) counts)) as (q & E); congruence.
+    + destruct (read_ssa_fault (scan (firstn k data) counts)) as (q & E); congruence.
+Qed.
+Print Assumptions C18_success_means_complete.
+
 Theorem C18_writes_fault : forall ws k, (k < total ws)%nat -> run_writes ws (fail_at k) 0 = Err EIO.
 Proof. exact writes_fault. Qed.
 Theorem C18_writes_complete : forall ws, run_writes ws ok_dest 0 = Ok (total ws).
 Proof. exact writes_complete. Qed.
+(* for ANY destination: a successful return means every byte was handed over *)
+Theorem C18_writes_ok_complete : forall ws d m, run_writes ws d 0 = Ok m -> m = total ws.
+Proof. exact writes_ok_complete. Qed.
+Print Assumptions C18_writes_ok_complete.
 Theorem C18_write_srt_fault : forall l doc k, write_srt l = Ok doc -> (k < length doc)%nat -> write_srt_to l (fail_at k) = Err EIO.
 Proof. exact write_srt_fault. Qed.
 Theorem C18_write_srt_complete : forall l doc, write_srt l = Ok doc -> write_srt_to l ok_dest = Ok (length doc).
